@@ -25,6 +25,7 @@ MODS = ["amr_kitchen.mandoline.mandoline"]
 
 
 def bounds(tier):
+    # (positions: every lattice point and, beside each interior one, +-1 ulp and +-1e-9 finest cell)
     return {"levels": [1, 2, 3], "positions": "all lattice points (quarter of finest cell)", "normals": [0, 1, 2],
             "field_lists": ["A", "A C G", "G grid_level", "all", "G A (not header order)", "C grid_level A"], "limit": "None, 0..finest", "modes": ["serial", "parallel"]}
 
@@ -181,6 +182,71 @@ def has_poison_mask(a):
     return np.isin(bits, np.array(POISONS, dtype=np.uint64))
 
 
+def check_perturbed(rec, sub, sm, ref, m, L, out, pos2):
+    """position pos2 = lattice position m moved by a few ulps / 1e-9 cell: interpolation is continuous in the position, so
+    the lattice reference holds up to slope x displacement wherever the three lattice points m-1, m, m+1 agree on the
+    level that contains the plane; elsewhere (a box face in between) any bracket of stored samples is accepted.  The
+    affine field is a + b*pos2 itself."""
+    n = sm.n
+    R, Rm, Rp = sm.reference(m, L), sm.reference(m - 1, L), sm.reference(m + 1, L)
+    delta = abs(pos2 - R["pos"])
+    dxf = ref.dx[L][n]
+    nx, ny = R["Lp"].shape
+    stable = R["exact_ok"] & (R["Lp"] == Rm["Lp"]) & (R["Lp"] == Rp["Lp"])
+    for nm in ("A", "C", "G"):
+        fi = ref.fields.index(nm)
+        got = np.asarray(out[nm]).T
+        if got.shape != (nx, ny):
+            rec.fail("shape", sub, "%s: %s" % (nm, got.shape))
+            return
+        pois = has_poison_mask(got)
+        if pois.any():
+            rec.fail("uninitialised_memory", sub, "%s: %d pixels hold uninitialised memory" % (nm, int(pois.sum())))
+            continue
+        magF = max(float(np.max(np.abs(a[..., fi]))) for lv in range(L + 1) for a in ref.data[lv])
+        extra = delta * (4.0 / dxf) * 2.0 * magF + 1e-300
+        with np.errstate(invalid="ignore"):
+            bad = stable & ~(np.abs(got - R["exact"][..., fi]) <= 64 * EPS * R["mag"][..., fi] + extra)
+        if bad.any():
+            i, j = np.argwhere(bad)[0]
+            rec.fail("values_" + nm, sub, "%s pixel (%d,%d): %r, at the lattice position %g away the bracket samples of level %d give %r"
+                     % (nm, i, j, got[i, j], delta, R["Lp"][i, j], R["exact"][i, j, fi]))
+        rest = ~stable
+        if rest.any():
+            member = np.zeros((nx, ny), dtype=bool)
+            for RR in (R, Rm, Rp):
+                for ok, e, mag in RR["cands"]:
+                    with np.errstate(invalid="ignore"):
+                        member |= ok & (np.abs(got - e[..., fi]) <= 64 * EPS * mag[..., fi] + extra)
+            bad = rest & ~member
+            if bad.any():
+                i, j = np.argwhere(bad)[0]
+                rec.fail("not_a_bracket_" + nm, sub, "%s pixel (%d,%d): %r is no interpolation of stored samples around the plane" % (nm, i, j, got[i, j]))
+        if nm == "A":
+            s0 = sm.s(0)
+            if s0 // 2 < m < sm.nunits() - s0 // 2:
+                a, b = 3.0 + fi, 2.0 + 0.5 * fi
+                e = a + b * pos2
+                # (a position within the tool's 1e-6 cell tolerance of a cell centre is taken as that centre)
+                badA = ~(np.abs(got - e) <= 64 * EPS * (abs(a) + abs(b * pos2)) * 4 + abs(b) * delta)
+                if badA.any():
+                    i, j = np.argwhere(badA)[0]
+                    rec.fail("affine_not_reproduced", sub, "A pixel (%d,%d): %r != a+b*pos = %r" % (i, j, got[i, j], e))
+    g = out.get("grid_level")
+    if g is None or np.asarray(g).T.shape != (nx, ny):
+        rec.fail("grid_level_missing", sub, "")
+    else:
+        g = np.asarray(g, dtype=float).T
+        with np.errstate(invalid="ignore"):
+            integral = (g == np.floor(g)) & (g >= 0) & (g <= L)
+        gi = np.where(integral, g, 0).astype(int)
+        lev_ok = R["level_ok"] | Rm["level_ok"] | Rp["level_ok"]
+        okl = np.take_along_axis(lev_ok, gi[None, ...], axis=0)[0] & integral
+        if (~okl).any():
+            i, j = np.argwhere(~okl)[0]
+            rec.fail("grid_level", sub, "pixel (%d,%d): grid_level %r is not a level with a box there" % (i, j, g[i, j]))
+
+
 def run_case(case, workdir):
     from amr_kitchen.mandoline import Mandoline
     rec = Rec()
@@ -221,6 +287,25 @@ def run_case(case, workdir):
                     near = bool(sm.shared_face_pixels(m, L).any())
                     rec.fail("serial_parallel_or_poison_dependent", {"normal": n, "m": m, "fields": fl, "limit_level": limit,
                              "only_near_shared_face": near}, "outputs differ between serial/poison0 and parallel/poison1")
+    # positions a few ulps / 1e-9 cell beside every lattice position (cell centres, faces, quarter points)
+    dxf = ref.dx[nlev - 1][n]
+    for m in positions:
+        if not 0 < m < N:
+            continue
+        p0 = sm.pos_of(m)
+        for pi, pos2 in enumerate((np.nextafter(p0, np.inf), np.nextafter(p0, -np.inf), p0 + 1e-9 * dxf, p0 - 1e-9 * dxf)):
+            pos2 = float(pos2)
+            if pos2 == p0:
+                continue
+            serial = bool((m + pi) % 2)
+            st, val = do(["A", "C", "G", "grid_level"], None, serial, pos2, 0)
+            sub = {"normal": n, "m": m, "pos": pos2, "beside_lattice_position": p0, "fields": ["A", "C", "G", "grid_level"], "limit_level": None,
+                   "serial": serial, "poison": 0}
+            rec.exe([dh, "beside", m, pi])
+            if st == "exc":
+                rec.fail("raised", sub, exc_text(val))
+                continue
+            check_perturbed(rec, sub, sm, ref, m, nlev - 1, val, pos2)
     # histories on ONE Mandoline object: slices along all three normals in turn, vs fresh objects
     n1, n2 = (n + 1) % 3, (n + 2) % 3
     cen = [0.5 * (ref.geo_lo[d] + ref.geo_hi[d]) + 0.25 * ref.dx[nlev - 1][d] for d in range(3)]
